@@ -520,7 +520,7 @@ _scn_auth = dict(_scn, harness="harness/scn_auth.c", flags=_scn["flags"] + ["--n
                  unwindset=dict(_scn["unwindset"], **{"verif_crypt.0": 14, "verif_write.0": 9, "maybe_crash.0": 9, "clear_password.0": 14,
                                                       "get_groups.0": 4, "get_groups.1": 4, "is_in_groups.0": 4, "add_groups.0": 4, "fill_salt.0": 18,
                                                       "get_salt_from_passwd.0": 6, "verif_router_snprintf.0": 10, "verif_router_snprintf.1": 5, "strcat.0": 24, "strchr.0": 24, "write_user_data.0": 6,
-                                                      "harness_crash_atomic.0": 4, "verif_ftruncate.0": 9, "cJSON_GetObjectItem.0": 9}),
+                                                      "harness_crash_atomic.0": 4, "verif_ftruncate.0": 9, "cJSON_GetObjectItem.0": 11}),
                  stubs=_SCN_STUBS + ["crypt: injective model crypt(pw, salt) = \"H\" ++ pw", "ftruncate/lseek/write: 8-byte file model with symbolic error / short-write outcomes and a symbolic crash point",
                                      "cJSON_Print of the database: returns the fixed new content \"NEW\"", "cjet_get_random_bytes: fixed bytes",
                                      "credential database installed directly (load_passwd_data's open/mmap/parse are not modelled)"])
@@ -891,3 +891,26 @@ _note_add("C04", "shape_*: hostile member shapes (C06.shape_* obligations) leave
 _note_add("C06", "shape_*: 42 hostile JSON-RPC message shapes (members missing, of the wrong type, nested; bare scalars; empty / nested batches; responses with odd ids) through the real dispatcher and handlers: memory safe, connection kept or closed as documented, at most one (error) response, nothing routed, nobody notified, nothing leaked.")
 _note_add("C05", "peer_leaves_with_everything: one peer that owns a subscribed state, holds a fetch, is the caller of one in-flight request and the owner of another leaves: subscribers see remove once, the foreign caller gets one error, its own request is dropped (late reply writes nothing), its fetch no longer receives events, other peers' elements and fetches are unaffected, everything is released once all peers are gone.")
 _note_add("C03", "self_request_bystander: a peer's set to its own state is neither answered nor dropped by a bystander's disconnect.")
+
+# ------------------------------------------------------------------------------------------------ thorough tier: deeper bounds (second batch)
+O(id="C16.match_functions_len5", props=["C16"], harness="harness/c16_match.c", entry="harness_match", tier="thorough", reach=["long_path"], unwind=8, defines=["SL=5"],
+  functions=["the twelve match functions"], symbolic="path, operand and second operand: each 0..5 arbitrary non-NUL bytes",
+  stubs=["strlen/strcmp/strncmp/strstr/strcasecmp/strncasecmp/strcasestr: reference implementations (C locale)"], assumes=[], bounds="strings <= 5 bytes",
+  timeout={"quick": 900, "thorough": 3600}, flags=["--no-bounds-check"])
+O(id="C12.frame_rules_payload16", props=["C12", "C06"], entry="harness_frame_rules", tier="thorough", defines=["MAXPAY=16"],
+  reach=["rsv", "big_control", "ping", "close_ok", "stray_continuation", "continuation", "text", "first_fragment"],
+  functions=["ws_handle_frame"], symbolic="as C12.frame_rules with payloads up to 16 bytes", assumes=["as C12.frame_rules"], bounds="payload <= 16 bytes or 126",
+  **dict(_ws, unwind=18, unwindset={"strlen.0": 24, "frame_rules.0": 18, "ws_writev.0": 22, "cjet_is_byte_sequence_valid.0": 18}, timeout={"quick": 900, "thorough": 3600}))
+O(id="C18.auto_aligned_len33_off3", entry="harness_auto", tier="thorough", unwind=35, reach=["auto_word_path"], defines=["ALEN=33", "AOFF=3"],
+  symbolic="text bytes, length 0..33, is_complete; alignment 3", bounds="length <= 33 (three 64-bit words after the unaligned head)", timeout={"quick": 900, "thorough": 3600},
+  **dict(_c18, functions=["cjet_is_word_sequence_valid_auto_alligned"]))
+
+O(id="C13.header_line_step", props=["C13", "C05", "C12", "C06"], entry="harness_header_line", reach=["eof", "bad_line", "upgraded", "next_line"],
+  functions=["websocket_read_header_line", "handle_error", "websocket_close"],
+  symbolic="line length 0..4 (exact-size heap object), parser verdict (consumes everything / stops early), whether the line completed an upgrade",
+  assumes=["http_parser_execute contract: consumes at most the bytes it is given; sets parser->upgrade only when it consumed everything"], bounds="one header line", **_ws)
+
+for _c, _nm, _r in ((0, "member", "allowed"), (1, "set_group_only", "refused"), (2, "unauthenticated", "refused")):
+    O(id="C08.call_rights_" + _nm, props=["C08", "C04"], entry="harness_call_rights", defines=["CALLCASE=%d" % _c], reach=[_r],
+      functions=_AF + ["set_or_call", "fill_access", "has_access", "get_groups"], symbolic="call argument", assumes=["set-up requests succeed"],
+      bounds="method 'm' with fetchGroups/callGroups [g1]; caller: uc (callGroups g1) / us (fetch+set groups g1 only) / unauthenticated", **_scn_auth)
